@@ -493,8 +493,11 @@ def station_specs(draw, sid, kinds=("cont", "cont0", "deadband", "finite"), fini
 def allowed_levels(s):
     """A finite menu of pilots the station accepts (used by scripted schedules)."""
     if s["kind"] == "cont":
-        mx = 100.0 if s["max"] is None else s["max"]
         lo = s.get("min", 0)
+        if s["max"] is None:
+            # no upper limit: the advertised maximum (what UncontrolledCharging submits) is inf
+            return sorted({lo, 100.0, 12.3, 1e6} | ({0.0} if lo <= 0 else set())) + [float("inf")]
+        mx = s["max"]
         return sorted({lo, mx, round((lo + mx) / 2, 3), round(lo + (mx - lo) * 0.123, 3)} | ({0.0} if lo <= 0 else set()))
     if s["kind"] == "deadband":
         return sorted({0.0, float(s["end"]), float(s["max"]), round((s["end"] + s["max"]) / 2, 3)})
@@ -558,7 +561,7 @@ def constraint_lists(draw, stations, max_constraints=4, limits=(20.0, 50.0, 100.
     out = []
     for j in range(draw(st.integers(0, max_constraints))):
         members = draw(st.lists(st.sampled_from(ids), min_size=1, max_size=len(ids), unique=True))
-        coeffs = {i: draw(st.sampled_from([1.0, 1.0, 1.0, -1.0, 0.5, 0.25])) for i in members}
+        coeffs = {i: draw(st.sampled_from([1.0, 1.0, 1.0, -1.0, 0.5, 0.25, 2.0, 1.5])) for i in members}
         out.append({"name": "con-%d" % j, "limit": draw(st.sampled_from(list(limits))), "coeffs": coeffs})
     return out
 
@@ -625,6 +628,7 @@ def scenarios(
     window=6,
     max_per_station=3,
     sched_max_len=4,
+    unlimited=True,
 ):
     n = draw(st.integers(1, max_stations))
     ids = list(draw(st.permutations(STATION_POOL)))[:n]
@@ -632,8 +636,9 @@ def scenarios(
     station_kinds = kinds
     if sched_kind == "sorted":
         station_kinds = tuple(k for k in kinds if k in ("cont0", "finite")) or ("cont0",)
-    finite_max = sched_kind in ("sorted", "uncontrolled", "always_max")
-    stations = [draw(station_specs(i, station_kinds, finite_max=finite_max or True)) for i in ids]
+    # round-robin does np.arange(min, max, inc): the sorted algorithms need finite maxima
+    finite_max = sched_kind == "sorted" or not unlimited
+    stations = [draw(station_specs(i, station_kinds, finite_max=finite_max)) for i in ids]
     cons = draw(constraint_lists(stations, max_constraints, limits))
     if sched_kind == "always_max":
         # "exact" family: oversized ideal batteries and huge requests, so that an EV draws
